@@ -16,9 +16,26 @@ def parseTy? : String → Option CType
 def parseFin? : String → Option Fin
   | "F" => some .final | "C" => some .intermediate | "A" => some .abort | _ => none
 
-def parseRk? : String → Option ReqKind
+def parseMode? : String → Option Mode
+  | "0" => some .invalid | "1" => some .none | "2" => some .sign | "3" => some .signAndEncrypt | _ => none
+
+/-- `oi` / `or` = plain Issue / Renew; `o:<i|r>:<mode 0-3>:<s|d>:<nonce length or ->` = an
+OpenSecureChannelRequest with that request type, security mode, same / different protocol version and
+nonce; `obad` = one whose enum fields hold no enum value -/
+def parseRk? (s : String) : Option ReqKind :=
+  match s with
   | "ge" => some .getEndpoints | "cs" => some .createSession | "oi" => some .openIssue
-  | "or" => some .openRenew | "cl" => some .close | "junk" => some .junk | _ => none
+  | "or" => some .openRenew | "cl" => some .close | "junk" => some .junk | "obad" => some .openBadEnum
+  | _ =>
+    match s.splitOn ":" with
+    | ["o", t, m, pv, n] =>
+      let renew? : Option Bool := if t = "i" then some false else if t = "r" then some true else none
+      let pv? : Option Bool := if pv = "s" then some true else if pv = "d" then some false else none
+      let nonce? : Option (Option Nat) := if n = "-" then some none else n.toNat?.map some
+      match renew?, parseMode? m, pv?, nonce? with
+      | some r, some m, some pv, some n => some (.open r m pv n)
+      | _, _, _, _ => none
+    | _ => none
 
 def parseMal? : String → Option Mal
   | "ok" => some .ok | "badsize" => some .badSize | "badpolicy" => some .badPolicy | _ => none
@@ -40,6 +57,7 @@ def parseFrame? (l : Lens) : List String → Option Frame
 def showOut : Out → String
   | .ack => "ok ack"
   | .opnResponse ch tk r => s!"ok opn chan={ch} token={tk} req={r}"
+  | .opnFault e r => s!"ok fault-opn {e} req={r}"
   | .service n r => s!"ok service {n} req={r}"
   | .stored => "ok stored"
   | .closeErr e => s!"err {e}"
@@ -57,6 +75,7 @@ def showSock (f : Frame) (o : Out) : String :=
   match o with
   | .ack => "ack"
   | .opnResponse ch tk r => s!"opn_chan={ch}_token={tk}_req={r}"
+  | .opnFault e r => s!"fault-opn_{e}_req={r}"
   | .service n r => s!"service_{n}_req={r}"
   | .stored => "-"
   | .closeErr _ => "eof"
@@ -76,7 +95,7 @@ def finName : Fin → String
   | .final => "F" | .intermediate => "C" | .abort => "A"
 
 def rkName : ReqKind → String
-  | .getEndpoints => "ge" | .createSession => "cs" | .openIssue => "oi" | .openRenew => "or" | .close => "cl" | .junk => "junk"
+  | .getEndpoints => "ge" | .createSession => "cs" | .open _ _ _ _ => "open" | .openBadEnum => "obad" | .close => "cl" | .junk => "junk"
 
 /-- position of `x` relative to a limit `lim` (0 = no limit): the comparison at its boundary -/
 def rel (pre : String) (x lim : Nat) : String :=
@@ -141,10 +160,19 @@ def chunkArms (c : Conn) (k : Chunk) : List String :=
                 | .clo => s!"disp-clo-{rkName rk}"
                 | .opn =>
                   match rk with
-                  | .openIssue => if firstTy ≠ .opn then "disp-opn-first-not-opn"
-                      else if c.issued then "disp-issue-again" else "disp-issue-first"
-                  | .openRenew => if firstTy ≠ .opn then "disp-opn-first-not-opn"
-                      else if c.issued then "disp-renew" else "disp-renew-before-issue"
+                  | .open renew mode pvSame nonce =>
+                    let t := if renew then "renew" else "issue"
+                    let n := match nonce with
+                      | none => "opn-nonce-null" | some 0 => "opn-nonce-empty" | some _ => "opn-nonce-bytes"
+                    let m := match mode with
+                      | .invalid => "invalid" | .none => "none" | .sign => "sign" | .signAndEncrypt => "signenc"
+                    if firstTy ≠ .opn then s!"disp-opn-first-not-opn"
+                    else if ¬ pvSame then s!"opn-{t}-pv-mismatch,{n}"
+                    else if renew ∧ ¬ c.issued then s!"opn-renew-before-issue,{n}"
+                    else
+                      let again := if c.issued then "opn-channel-already-issued" else
+                        (if c.lastChanId > 0 then "opn-after-refused-issue" else "opn-first-attempt")
+                      s!"opn-{t}-mode-{m},{again},{n}"
                   | r => s!"disp-opn-wrong-{rkName r}"
                 | .msg =>
                   match rk with
